@@ -5,7 +5,7 @@ namespace Driver
 open CoreBGP CoreBGP.Model
 
 /-- all checks of one scenario; returns the failure clauses -/
-def checkScenario (evs : List Ev) : List String × Nat := Id.run do
+def checkScenarioCore (evs : List Ev) : List String × Nat := Id.run do
   let mut fails : List String := []
   let mut nconns := 0
   for e in evs do
@@ -135,6 +135,21 @@ def checkScenario (evs : List Ev) : List String × Nat := Id.run do
           | none => pure ()
       | none => pure ()
   return (fails, nconns)
+
+
+/-- A scenario is a bounded script; a trace beyond the harness's bound (`harness.runaway`) is a failure by itself
+(unbounded behaviour, e.g. a message flood). The remaining checks then run on a prefix of the trace, so that the
+clause that names the behaviour is reported as well without the analysis time growing with the flood. -/
+def checkScenario (evs : List Ev) : List String × Nat :=
+  match evs.find? (·.ev == "harness.runaway") with
+  | none => checkScenarioCore evs
+  | some e =>
+    -- prefix: at most 3000 events and 300 kB of arguments
+    let pre := (evs.foldl (fun (acc : List Ev × Nat × Nat) x =>
+      let sz := acc.2.2 + (x.args.foldl (fun n a => n + a.length) 0)
+      if acc.2.1 ≥ 3000 || sz > 300000 then (acc.1, 3000, sz) else (x :: acc.1, acc.2.1 + 1, sz)) ([], 0, 0)).1.reverse
+    let (fs, n) := checkScenarioCore pre
+    (s!"C05 runaway behaviour: a bounded scenario produced a trace beyond the harness bound of 30000 events / 6 MB (flood of `{e.arg 0}` events)" :: fs, n)
 
 partial def loopLive (hin hout : IO.FS.Stream) (spec : String) (evs : Array Ev) : IO Unit := do
   let line ← hin.getLine
